@@ -18,7 +18,8 @@ META = {
         'self._get_lexicon_ids(); Wordnet search -> _lexicon_ids; expand sources -> _expanded_ids; exporter / '
         'describe -> one-tuple of a lexicon rowid). R3: element methods never navigate through the Wordnet-level '
         'id lookups. R4: default-mode scope formula. R5: Word/Sense/Synset objects are built only from rows of '
-        'scoped queries or as placeholders. Does not decide which rows SQLite returns for a filter.'),
+        'scoped queries or as placeholders. R7: every Word/Sense/Synset the library builds is handed the Wordnet of the object it was '
+        'reached from (an omitted `_wordnet` falls back to a default-mode Wordnet()). Does not decide which rows SQLite returns for a filter.'),
     'decides': ['SQL scoping of every table occurrence', 'scope provenance at every call site',
                 'navigation discipline of element methods', 'default-mode scope formula', 'constructor provenance'],
     'not_decided': ['row sets computed by SQLite', 'which lexicons a specifier selects (C08)'],
@@ -327,8 +328,25 @@ def _cls_is_entity(ctx, func, targets):
     return func.cls is not None and func.cls.name in targets
 
 
+def _wordnet_position(ctx, func, call):
+    """index of the positional parameter `_wordnet` in the constructor of the class being built (None when keyword-only / unknown)"""
+    if not isinstance(call.func, ast.Name):
+        return None
+    c = ctx.repo.resolve_class(func.module, call.func.id) if call.func.id != 'cls' else func.cls
+    if c is None:
+        return None
+    for k in ctx.repo.mro(c):
+        init = k.methods.get('__init__')
+        if init is not None:
+            params = [a.arg for a in init.node.args.posonlyargs + init.node.args.args][1:]
+            return params.index('_wordnet') if '_wordnet' in params else None
+    return None
+
+
 def _row_from_scoped(ctx, func, call, scoped_names):
-    data_args = [a for a in call.args]
+    wpos = _wordnet_position(ctx, func, call)
+    data_args = [a for i, a in enumerate(call.args)
+                 if not (wpos is not None and i == wpos and not any(isinstance(x, ast.Starred) for x in call.args[:i + 1]))]
     data_kw = [k.value for k in call.keywords if k.arg not in ('_wordnet',)]
     names = []
     for a in data_args + data_kw:
@@ -409,6 +427,64 @@ def r6_scope_recomputed(ctx, res):
         raise AnalysisError(f'only {n} functions of the query layer examined for hidden state')
 
 
+def _wordnet_valued(func, e, depth=0):
+    """is `e` the Wordnet an element was created by: self._wordnet / x._wordnet, `self` inside class Wordnet, a parameter named
+    _wordnet or annotated Wordnet, or a local bound to one of these"""
+    if isinstance(e, ast.Attribute) and e.attr == '_wordnet':
+        return True
+    if isinstance(e, ast.Name):
+        if e.id == 'self' and func.cls is not None and func.cls.name == 'Wordnet':
+            return True
+        for p in func.param_nodes():
+            if p.arg == e.id:
+                return p.arg == '_wordnet' or (p.annotation is not None and 'Wordnet' in norm(p.annotation))
+        if depth < 3:
+            vals = [s[1] for s in binding_sites(func.node, e.id) if s[0] == 'assign']
+            return bool(vals) and all(_wordnet_valued(func, v, depth + 1) for v in vals)
+    return False
+
+
+def r7_wordnet_handed_on(ctx, res):
+    """every Word / Sense / Synset that the library builds is bound to the Wordnet of the object it was reached from: the
+    constructors fall back to a fresh default-mode Wordnet() when `_wordnet` is omitted, and navigation from such an object
+    (senses, words, relations, closures) silently uses the default scope and expand set instead of the selected lexicons."""
+    targets = {'Word', 'Sense', 'Synset'}
+    n = 0
+    for func in ctx.repo.all_funcs():
+        if func.module.short in ('lmf', 'validate', '_add', '_export'):
+            continue
+        for node in walk_no_nested(func.node):
+            if not isinstance(node, ast.Call):
+                continue
+            is_empty = isinstance(node.func, ast.Attribute) and node.func.attr == 'empty' and norm(node.func.value).split('.')[-1] in targets
+            is_ctor = isinstance(node.func, ast.Name) and (node.func.id in targets or (node.func.id == 'cls' and _cls_is_entity(ctx, func, targets)))
+            if not (is_empty or is_ctor):
+                continue
+            if is_ctor and node.func.id != 'cls':
+                c = ctx.repo.resolve_class(func.module, node.func.id)
+                if c is None or c.module.short != '_core':
+                    continue
+            n += 1
+            key = f'wordnet-handed-on:{func.key}:{norm(node)[:60]}'
+            loc = func.module.loc(node)
+            given = [k.value for k in node.keywords if k.arg == '_wordnet']
+            if not given and is_ctor:
+                wpos = _wordnet_position(ctx, func, node)
+                pos = [a for a in node.args if not isinstance(a, ast.Starred)]
+                if wpos is not None and not any(isinstance(a, ast.Starred) for a in node.args) and len(node.args) > wpos:
+                    given = [node.args[wpos]]
+                elif any(isinstance(a, ast.Starred) for a in node.args) and pos and _wordnet_valued(func, node.args[-1]):
+                    given = [node.args[-1]]          # Word(*row, self._wordnet): the row fills the leading parameters
+            ok = bool(given) and all(_wordnet_valued(func, g) for g in given)
+            res.inst(key, loc, f'_wordnet = {norm(given[0]) if given else "<omitted>"}')
+            if not ok:
+                res.find(key, loc, f'{norm(node)[:80]} in {func.qualname} ' + ('does not pass `_wordnet`' if not given else
+                                   f'passes `{norm(given[0])}` as `_wordnet`, which is not the Wordnet of the object it is reached from')
+                                   + ': the new object falls back to a default-mode Wordnet() and navigation from it leaves the selected lexicons')
+    if n < 12:
+        raise AnalysisError(f'only {n} constructions of Word/Sense/Synset found')
+
+
 RULES = [
     ('C04-R1', r1_sql_scoping, 40),
     ('C04-R2', r2_callsite_provenance, 30),
@@ -416,4 +492,5 @@ RULES = [
     ('C04-R4', r4_default_formula, 3),
     ('C04-R5', r5_constructor_provenance, 8),
     ('C04-R6', r6_scope_recomputed, 150),
+    ('C04-R7', r7_wordnet_handed_on, 12),
 ]
